@@ -650,6 +650,99 @@ func runC16(c *Ctx) {
 				}
 			}
 		}
+		// The same two facts, looked for across the maker's unexported helpers (the GUID may live in a record whose
+		// methods build the events; the URL may be made by a helper that is handed the digest): one GUID generation,
+		// executed once per invocation, reaches every event constructor; the URI locator handed to a constructor is
+		// GCETcbURL of a name made from hex(golden digest).
+		if !same || !(digestOK && urlOK) {
+			region := unexportedRegion(mk)
+			inReg := map[*ssa.Function]bool{}
+			for _, g := range region {
+				inReg[g] = true
+			}
+			rsl := flow.NewSlicer(c.P)
+			rsl.LiftParams = 3
+			isGen := func(v ssa.Value) bool {
+				call, ok := v.(*ssa.Call)
+				if !ok {
+					return false
+				}
+				g := call.Call.StaticCallee()
+				return g != nil && g.Pkg != nil && g.Pkg.Pkg.Path() == "github.com/google/uuid" && strings.HasPrefix(g.Name(), "New") && inReg[call.Parent()]
+			}
+			var gens []*ssa.Call
+			for _, g := range region {
+				for _, call := range callsIn(g, func(call ssa.CallInstruction) bool { v, ok := call.(*ssa.Call); return ok && isGen(v) }) {
+					gens = append(gens, call.(*ssa.Call))
+				}
+			}
+			// executed once: not in a loop, and its function is reached from the maker through single, loop-free call sites
+			once := len(gens) == 1
+			if once {
+				g := gens[0].Parent()
+				blk := gens[0].Block()
+				for hop := 0; hop < 4 && once; hop++ {
+					if innermostLoopOf(naturalLoops(g), blk) != nil {
+						once = false
+					}
+					if g == mk {
+						break
+					}
+					var sites []ssa.CallInstruction
+					for _, r := range region {
+						sites = append(sites, callsIn(r, func(call ssa.CallInstruction) bool { return call.Common().StaticCallee() == g })...)
+					}
+					if len(sites) != 1 {
+						once = false
+						break
+					}
+					g, blk = sites[0].Parent(), sites[0].Block()
+				}
+			}
+			ctorGUIDs, allFromGen := 0, true
+			locatorOK := false
+			for _, g := range region {
+				for _, call := range callsIn(g, func(call ssa.CallInstruction) bool {
+					f := call.Common().StaticCallee()
+					return f != nil && load.RelPkg(f) == "endorse"
+				}) {
+					for _, a := range call.Common().Args {
+						if namedIs(a.Type(), evtPkg, "EfiGUID") {
+							ctorGUIDs++
+							if !rsl.Derives(a, isGen) {
+								allFromGen = false
+							}
+						}
+					}
+				}
+				for _, uc := range callsIn(g, func(cc ssa.CallInstruction) bool { return cc.Common().StaticCallee() == urlFn }) {
+					hexedDigest := false
+					rsl.Visit(uc.Common().Args[0], func(v ssa.Value) bool {
+						if hc, ok := v.(*ssa.Call); ok && calleeIs(hc, "encoding/hex.EncodeToString") {
+							if rsl.Derives(hc.Call.Args[0], func(x ssa.Value) bool {
+								if flow.IsFieldLoad(x, repoPath("proto/endorsement"), "VMGoldenMeasurement", "Digest") {
+									return true
+								}
+								gc, ok := x.(*ssa.Call)
+								return ok && gc.Call.StaticCallee() != nil && gc.Call.StaticCallee().Name() == "GetDigest"
+							}) {
+								hexedDigest = true
+							}
+						}
+						return true
+					}, nil)
+					if hexedDigest {
+						locatorOK = true
+					}
+				}
+			}
+			if !same && once && ctorGUIDs >= 1 && allFromGen {
+				same = true
+			}
+			if !(digestOK && urlOK) && locatorOK {
+				digestOK, urlOK = true, true
+			}
+		}
 		c.S.Check(same, "R5", name+":one GUID", c.pos(mk.Pos()), fmt.Sprintf("%d events share one manifest GUID value", len(guidArgs)), "the emitted events do not share one manifest GUID value")
 		c.S.Check(digestOK && urlOK, "R5", name+":URI locator", c.pos(mk.Pos()), "URI locator = GCETcbURL(name from hex(golden digest))", "the URI locator is not the bucket URL derived from the hex SHA-384 of the image")
 		// R5b: the events published for a firmware are the ones computed for it in the same invocation: the
